@@ -28,7 +28,7 @@ func C20(c *Ctx) {
 		"(A12) pagination-callback idiom on go/ssa CFGs: in every closure passed to query.FilteredPaginate the append to the result is guarded by `accumulate`, no non-error return is control- or data-dependent on `accumulate` (so counting pages and collecting pages see the same hits), the appended element is the decoded `value`, and every `false` return is guarded by a predicate over the request; " +
 		"for GenericFilteredPaginate callbacks a nil result is returned only under a request-dependent filter and the returned item carries the decoded value; " +
 		"(A7) every store section is encoded and decoded with one single Go type across all writers, getters, iterators and paginated queries, and the prefix store handed to a paginator is the section its callback decodes. Structural necessary conditions; SDK paginator correctness is trusted."
-	r.Rules = []string{"A1.query-readonly", "A12.accumulate-guard", "A12.hit-independent-of-accumulate", "A12.element", "A12.item-identity", "A12.filter-only-drop", "A12.filter-complete", "A11.parser", "A11.reprefix", "A7.section-type", "A12.decode-fresh", "A12.page-request"}
+	r.Rules = []string{"A1.query-readonly", "A12.accumulate-guard", "A12.hit-independent-of-accumulate", "A12.element", "A12.item-identity", "A12.filter-only-drop", "A12.filter-complete", "A11.parser", "A11.reprefix", "A7.section-type", "A12.decode-fresh", "A12.page-request", "A12.filter-form"}
 	decodeFresh(c, ir.Modules...)
 	r.Trusted = []string{"cosmos-sdk types/query FilteredPaginate / GenericFilteredPaginate semantics", "codec (Must)Unmarshal decodes what (Must)Marshal encoded for the same type"}
 	r.NotDecided = []string{"cross-page completeness as behaviour", "bank keeper pagination used by TotalSupply"}
@@ -56,6 +56,7 @@ func C20(c *Ctx) {
 	// A12: pagination callbacks
 	nFP, nGFP, nFilt := 0, 0, 0
 	nPage := 0
+	nForm := 0
 	for _, f := range w.Funcs {
 		if w.IsGenerated(f) || ir.IsFixture(f) && !strings.Contains(fn(f), "fixtures/c20") {
 			continue
@@ -124,6 +125,9 @@ func C20(c *Ctx) {
 					}
 					filteredPaginateCallback(c, f, call, cb)
 					if !ir.IsFixture(f) {
+						nForm += filterForm(c, cb, ir.ModuleOf(f))
+					}
+					if !ir.IsFixture(f) {
 						nFilt += filterComplete(c, call, call.Common().Args[2], 0, false)
 					}
 				case "GenericFilteredPaginate":
@@ -167,6 +171,7 @@ func C20(c *Ctx) {
 	}
 	r.Floor("FilteredPaginate call sites", nFP, 3)
 	r.Floor("paginator calls judged for their page request", nPage, 6)
+	r.Analysed["string comparisons with fields of listed items"] = nForm
 	r.Floor("GenericFilteredPaginate call sites", nGFP, 3)
 	r.Floor("request filter fields judged on the hits of paginated queries", nFilt, 8)
 	ctl := 0
